@@ -85,13 +85,15 @@ def canon_impl(obs, case):
 def fin_word(f):
     if f[0] == 'grpc':
         return 'grpc:%d:%s' % (f[1], '~' if f[2] is None else cps(f[2]))
+    if f[0] == 'exc' and len(f) > 1:
+        return f[1]                     # timeout | streamterm | protocol
     return f[0]
 
 
 def op_word(o):
     if isinstance(o, str):
-        return o
-    return 'T:%d:%s' % (o[1], '~' if o[2] is None else cps(o[2]))
+        return o[:2] if len(o) == 3 else o         # 'I!a' / 'I!h' -> 'I!': the model has one way to fail part-way
+    return 'T%s:%d:%s' % ('!' if len(o) > 3 and o[3] else '', o[1], '~' if o[2] is None else cps(o[2]))
 
 
 def model_line(case):
@@ -220,6 +222,9 @@ def status_of(frames):
     return None
 
 
+EXC_KINDS = ('exc', 'timeout', 'streamterm', 'protocol')
+
+
 def end_class(end):
     return {'fin:base': 'base', 'cancelled:close': 'cancelled-close',
             'swallow:close:base': 'swallow-close-base'}.get(end, end.replace(':', '-'))
@@ -271,7 +276,7 @@ def oracle(case, obs, can):
     cancel_ok = False
     for o, r in zip(case['ops'], results):
         if not isinstance(o, str) and r == 'ok' and explicit is None:
-            explicit = (str(o[1]), o[2])
+            explicit = (str(o[1]), o[2])        # the handler's own trailers went out (the call completed)
         if o == 'C' and r == 'ok':
             cancel_ok = True
     raised = None           # the GRPCError the handler itself raised (not replaced by a wrapper error)
@@ -318,10 +323,13 @@ def oracle(case, obs, can):
         # GRPCError(Status.OK) can not be honoured on a unary reply without its message (D42, repaired): any
         # non-OK status is truthful there; otherwise exactly the raised (status, message)
         want = ('non-ok', None) if (raised[0] == '0' and not streaming and ndata == 0) else raised
-    elif end in ('fin:exc', 'swallow:close:exc'):
+    elif end.split(':')[-1] in EXC_KINDS and end.split(':')[0] == 'fin' or \
+            (end.startswith('swallow:close:') and end.split(':')[-1] in EXC_KINDS):
+        # any Exception that is not a GRPCError -- including the handler's OWN asyncio.TimeoutError while the
+        # request carries a deadline that has not fired -- is UNKNOWN
         want = ('2', '*')
-    elif 'deadline' in end:
-        want = ('4', '*')
+    elif end.split(':')[1:2] == ['deadline']:
+        want = ('4', '*')               # the deadline actually fired (the harness saw its cancellation)
     if want is None or st is None:
         fail('status-missing', 'no grpc-status after %s' % end)
     elif want[0] == 'non-ok':
@@ -338,8 +346,12 @@ def oracle(case, obs, can):
 # ---- case generation --------------------------------------------------------------------------------
 
 OPS = ['R', 'I', 'M', ['T', 0, None], ['T', 5, 'nf'], 'C', 'S']
+# ... plus calls that fail part-way (a = bad argument, h = raising listener) and the transport being paused
+OPS_X = OPS + ['I!a', 'I!h', 'M!a', 'M!h', ['T', 0, None, 'a'], ['T', 5, 'nf', 'h'], 'P']
 FINS = [['ret'], ['grpc', 10, 'hmsg'], ['grpc', 0, None], ['exc'], ['base'], ['wait']]
-FIN2S = [['ret'], ['grpc', 7, None], ['exc'], ['base']]
+FINS_X = [['ret'], ['exc'], ['exc', 'timeout'], ['exc', 'streamterm'], ['exc', 'protocol'], ['grpc', 0, None],
+          ['base'], ['wait']]
+FIN2S = [['ret'], ['grpc', 7, None], ['exc'], ['exc', 'timeout'], ['base']]
 CARDS = ['UU', 'US', 'SU', 'SS']
 BODIES = [{'msgs': 0, 'partial': False, 'eof': True}, {'msgs': 0, 'partial': False, 'eof': False},
           {'msgs': 0, 'partial': True, 'eof': True}, {'msgs': 0, 'partial': True, 'eof': False},
@@ -415,9 +427,9 @@ def deadline_header(k):
     return ('grpc-timeout', '%du' % ((2 * k + 1) * 7812))
 
 
-def all_programs(depth):
+def all_programs(depth, alphabet=None):
     for n in range(depth + 1):
-        for ops in itertools.product(OPS, repeat=n):
+        for ops in itertools.product(alphabet or OPS, repeat=n):
             yield list(ops)
 
 
@@ -430,8 +442,14 @@ def gen_random(rng, classes):
         if not isinstance(o, str) and rng.random() < 0.5:
             code = rng.choice([0, 0, 1, 2, 4, 12, 13, 16])
             o = ['T', code, rng.choice([None, 'm%d' % code, ''])]
+        if o in ('I', 'M') and rng.random() < 0.2:
+            o = o + rng.choice(['!a', '!h'])
+        elif not isinstance(o, str) and rng.random() < 0.25:
+            o = o[:3] + [rng.choice(['a', 'h'])]
         ops.append(o)
-    fin = rng.choice(FINS)
+    if rng.random() < 0.25:
+        ops.insert(rng.randrange(len(ops) + 1), 'P')
+    fin = rng.choice(FINS + FINS_X)
     if fin[0] == 'grpc' and rng.random() < 0.7:
         code = rng.choice([0, 1, 2, 3, 4, 5, 8, 12, 14, 16])
         fin = ['grpc', code, rng.choice([None, 'why-%d' % code, ''])]
@@ -485,16 +503,33 @@ def build_cases(ctx, res):
                 if fin[0] == 'wait':
                     continue            # without an event a waiting handler hangs: covered in 3.
                 add('exhaustive', mk(ops, fin, card))
+    # 2b. the extended alphabet (calls failing part-way, paused transport) x every ending incl. the handler's
+    #     own TimeoutError / StreamTerminatedError / ProtocolError x {no deadline, deadline far away}
+    dx = ctx.n(2, 3)
+    res.extra['exhaustive_depth_extended_alphabet'] = dx
+    for ops in all_programs(dx, OPS_X):
+        for card in ('UU', 'SS'):
+            for fin in FINS_X:
+                for hs in (BASE, BASE + [FAR]):
+                    if fin[0] == 'wait' and hs is BASE:
+                        continue
+                    add('exhaustive-extended', mk(ops, fin, card, None, hs))
+    for ops in all_programs(1, OPS_X):          # ... and with the client side still open / a swallowed deadline
+        for card in CARDS:
+            for fin in FINS_X:
+                for pol, fin2 in (('honour', None), ('swallow', ['exc', 'timeout']), ('swallow', ['base'])):
+                    add('exhaustive-extended', mk(ops, fin, card, {'msgs': 1, 'partial': False, 'eof': False},
+                                                  BASE + [FAR], pol, fin2))
     # 3. environment matrix on short programs: bodies x END_STREAM x events x policies x deadline
     d2 = ctx.n(2, 3)
     env = []
     for ops in all_programs(d2):
-        for fin in FINS:
+        for fin in FINS + [['exc', 'timeout']]:
             for card in ('UU', 'SS'):
                 for body in BODIES:
                     for ext in ('none', 'reset', 'close'):
                         for pol, fin2 in (('honour', None), ('swallow', ['ret']), ('swallow', ['base']),
-                                          ('swallow', ['grpc', 7, None])):
+                                          ('swallow', ['grpc', 7, None]), ('swallow', ['exc', 'timeout'])):
                             for tmo in (False, True):
                                 env.append((ops, fin, card, body, ext, pol, fin2, tmo))
     want = ctx.n(9000, 120000)
